@@ -11,7 +11,7 @@ Monitor: quiescent-state checker for {scan worker analyses F from disk} || {didO
 """
 import os, shutil, time
 
-from ..common import Inconclusive, write_tree
+from ..common import Inconclusive, write_tree, hash_str
 from ..lsp import LSP, uri_to_path
 from ..pymodel import FileModel
 from ..runner import vh_bin, srv_bin
@@ -207,7 +207,7 @@ def server_level(ctx, quick):
         for kind in ("conftest", "test"):
             for placement in ("open_first", "visit_first", "unsynchronised"):
                 for further_kind in ("new_text", "disk_text"):
-                    if quick and (it + hash((kind, placement, further_kind))) % 3 != 0 and not (it == 0):
+                    if quick and (it + hash_str(kind + placement + further_kind)) % 3 != 0 and not (it == 0):
                         continue
                     one_server_run(ctx, kind, placement, further_kind, orders_seen, it)
     ctx.extra["server_orders_observed"] = sorted(orders_seen)
